@@ -1352,22 +1352,30 @@ Theorem C01_eq_same_path_s : forall dbg hp hpo hd shp shs input b sb,
 Proof. exact class_same_path_s. Qed.
 Print Assumptions C01_eq_same_path_s.
 
+(* "sch:", "sch:?q[#f]", "sch:#f" (bare same-scheme references): the relative state at EOF / '?' / '#' - the base
+   without its fragment, resp. with the new query / fragment; parser.rs: the same three arms of parse_relative
+   the scheme-less references "", "?q", "#f" take *)
+From RU Require Import Proofs.C01_EqSpBare.
+Theorem C01_eq_same_bare : forall dbg hp hpo hd shp shs input b sb,
+  usv_list input -> related dbg shs b sb -> in_class_same_bare sb input = true ->
+  exists R, spec_basic_url_parse shp input (Some sb) = BDone (bare_result sb R)
+    /\ agree_rel_strict dbg shs (parse_url dbg hp hpo hd None (Some b) input) (BDone (bare_result sb R)).
+Proof. exact class_same_bare. Qed.
+Print Assumptions C01_eq_same_bare.
+
 (* ===== every base, every reference (task c01asm) ===== *)
 From RU Require Import Proofs.C01_EqShape.
-(* base_shape_ok sb: a special non-file record is not opaque and has a host (true of every parse result);
-   same_scheme_bare sb input: the reference is "sch:" + nothing / "?..." / "#..." with sch the special scheme of the
-   base - the one shape outside Known_C01 that is in no proved class (stated, not proved; the differential
-   run covers it).  Everything else outside Known_C01 is in in_proved_class3: *)
+(* base_shape_ok sb: a special non-file record is not opaque and has a host (true of every parse result).
+   Against such a base EVERYTHING outside Known_C01 is in in_proved_class3: *)
 Theorem C01_class3_complete_base : forall dbg shs b sb input,
-  good_base dbg shs b sb -> base_shape_ok sb = true -> same_scheme_bare sb input = false ->
+  good_base dbg shs b sb -> base_shape_ok sb = true ->
   known_c01 (Some b) input = 0 -> in_proved_class3 (Some sb) input = true.
 Proof. exact base_covers. Qed.
 Print Assumptions C01_class3_complete_base.
 
-(* C01_statement with a base (with C01_statement_nobase: all of C01_statement up to the named differences
-   and the bare same-scheme references) *)
+(* C01_statement with a base (with C01_statement_nobase: all of C01_statement up to the named differences) *)
 Theorem C01_statement_base : forall dbg hp hpo hd shp shs b sb input,
-  usv_list input -> good_base dbg shs b sb -> base_shape_ok sb = true -> same_scheme_bare sb input = false ->
+  usv_list input -> good_base dbg shs b sb -> base_shape_ok sb = true ->
   known_c01 (Some b) input = 0 ->
   host_hyp3 hp hpo hd shp shs (Some sb) input ->
   agree_good dbg shs (parse_url dbg hp hpo hd None (Some b) input) (spec_basic_url_parse shp input (Some sb)).
@@ -1376,14 +1384,14 @@ Print Assumptions C01_statement_base.
 
 Theorem C01_statement_base_model : forall dbg idna, IdnaOK idna -> forall b sb input,
   usv_list input -> good_base dbg spec_host_serializer b sb -> base_shape_ok sb = true ->
-  same_scheme_bare sb input = false -> known_c01 (Some b) input = 0 ->
+  known_c01 (Some b) input = 0 ->
   agree_good dbg spec_host_serializer
     (parse_url dbg (host_parse idna) host_parse_opaque host_display None (Some b) input)
     (spec_basic_url_parse (spec_host_parser idna) input (Some sb)).
 Proof. exact statement_base_model. Qed.
 Check C01_statement_base_model : forall dbg idna, IdnaOK idna -> forall b sb input,
   usv_list input -> (related dbg spec_host_serializer b sb /\ spec_base_ok sb = true) -> base_shape_ok sb = true ->
-  same_scheme_bare sb input = false -> known_c01 (Some b) input = 0 ->
+  known_c01 (Some b) input = 0 ->
   let m := parse_url dbg (host_parse idna) host_parse_opaque host_display None (Some b) input in
   match spec_basic_url_parse (spec_host_parser idna) input (Some sb) with
   | BDone su => spec_base_ok su = true
@@ -1396,8 +1404,7 @@ Print Assumptions C01_statement_base_model.
 
 (* non-vacuity: against the parse result of "http://example.com/a/b/c?q": "http:x/../y" -> http://example.com/a/b/y ;
    "hTTp:\\z" -> http://example.com/z ;  "http:/\h.x/p" -> http://h.x/p (base ignored);  "http:foo:bar" ->
-   http://example.com/a/b/foo:bar (the second ':' starts no scheme).  "http:?z" is the bare shape: not in the
-   class (and, here, still equal on both sides). *)
+   http://example.com/a/b/foo:bar (the second ':' starts no scheme);  "http:?z" (bare) -> http://example.com/a/b/c?z. *)
 Example C01_same_scheme_nonvacuous :
   let idna := ex_idna_clean in
   let shp := spec_host_parser idna in
@@ -1414,7 +1421,7 @@ Example C01_same_scheme_nonvacuous :
       base_shape_ok su0 = true
       /\ in_proved_class3 (Some su0) i1 = true /\ in_proved_class3 (Some su0) i2 = true
       /\ in_proved_class3 (Some su0) i3 = true /\ in_proved_class3 (Some su0) i4 = true
-      /\ same_scheme_bare su0 i1 = false /\ same_scheme_bare su0 i5 = true /\ in_proved_class3 (Some su0) i5 = false
+      /\ in_class_same_bare su0 i1 = false /\ in_class_same_bare su0 i5 = true /\ in_proved_class3 (Some su0) i5 = true
       /\ known_c01 (Some u0) i1 = 0 /\ known_c01 (Some u0) i2 = 0 /\ known_c01 (Some u0) i3 = 0 /\ known_c01 (Some u0) i4 = 0
       /\ match P (Some u0) i1, S (Some su0) i1 with
          | POk u, BDone su => q_href u = [104; 116; 116; 112; 58; 47; 47; 101; 120; 97; 109; 112; 108; 101; 46; 99; 111; 109; 47; 97; 47; 98; 47; 121]
@@ -1433,7 +1440,8 @@ Example C01_same_scheme_nonvacuous :
                               /\ api_of_model true u = Some (spec_api_list spec_host_serializer su)
          | _, _ => False end
       /\ match P (Some u0) i5, S (Some su0) i5 with
-         | POk u, BDone su => api_of_model true u = Some (spec_api_list spec_host_serializer su)
+         | POk u, BDone su => q_href u = [104; 116; 116; 112; 58; 47; 47; 101; 120; 97; 109; 112; 108; 101; 46; 99; 111; 109; 47; 97; 47; 98; 47; 99; 63; 122]
+                              /\ api_of_model true u = Some (spec_api_list spec_host_serializer su)
          | _, _ => False end
   | _, _ => False
   end.
@@ -1451,16 +1459,15 @@ Theorem C01_class3_result_shape : forall shp,
 Proof. intros shp. split; [exact (nobase_result_shape shp) | exact (base_result_shape shp)]. Qed.
 Print Assumptions C01_class3_result_shape.
 
-(* C01_statement, all of it that is proved, in one theorem.  For base = None, or a pair in full_base = `related`
-   + spec_base_ok + base_shape_ok: every scalar-value input outside Known_C01 that is not a bare same-scheme
-   reference ("sch:", "sch:?..", "sch:#.." with sch the special scheme of the base) -
+(* C01_statement in one theorem.  For base = None, or a pair in full_base = `related` + spec_base_ok +
+   base_shape_ok: EVERY scalar-value input outside Known_C01 -
    the Standard succeeds -> its record meets spec_base_ok, and the model answers Overflow with the Standard's href
    beyond u32::MAX bytes or succeeds with a `related` record (same ten API strings);  the Standard fails -> the
    model returns Err;  and a successful pair of results is a full_base pair again (so the theorem covers
    everything reachable from parse results by resolving references).  Host functions abstract with the
    one-string hypothesis host_hyp3. *)
 Theorem C01_statement_all : forall dbg hp hpo hd shp shs input base sbase,
-  usv_list input -> full_rel dbg shs base sbase -> not_bare sbase input -> known_c01 base input = 0 ->
+  usv_list input -> full_rel dbg shs base sbase -> known_c01 base input = 0 ->
   host_hyp3 hp hpo hd shp shs sbase input ->
   agree_good dbg shs (parse_url dbg hp hpo hd None base input) (spec_basic_url_parse shp input sbase)
   /\ (forall su u, spec_basic_url_parse shp input sbase = BDone su -> parse_url dbg hp hpo hd None base input = POk u ->
@@ -1471,7 +1478,7 @@ Print Assumptions C01_statement_all.
 (* the same for the parser model with the host model plugged in against the Standard's parser with the
    Standard's host parser: relative to IdnaOK idna ONLY *)
 Theorem C01_statement_all_model : forall dbg idna, IdnaOK idna -> forall input base sbase,
-  usv_list input -> full_rel dbg spec_host_serializer base sbase -> not_bare sbase input -> known_c01 base input = 0 ->
+  usv_list input -> full_rel dbg spec_host_serializer base sbase -> known_c01 base input = 0 ->
   agree_good dbg spec_host_serializer
     (parse_url dbg (host_parse idna) host_parse_opaque host_display None base input)
     (spec_basic_url_parse (spec_host_parser idna) input sbase)
@@ -1486,7 +1493,6 @@ Check C01_statement_all_model : forall dbg idna, IdnaOK idna -> forall input bas
   | Some b, Some sb => (related dbg spec_host_serializer b sb /\ spec_base_ok sb = true) /\ base_shape_ok sb = true
   | _, _ => False
   end ->
-  match sbase with Some sb => same_scheme_bare sb input = false | None => True end ->
   known_c01 base input = 0 ->
   let m := parse_url dbg (host_parse idna) host_parse_opaque host_display None base input in
   match spec_basic_url_parse (spec_host_parser idna) input sbase with
